@@ -283,7 +283,7 @@ VH_FAMILY(cmk)
 {
   SymOpt so; Index n = c.k == 0 ? 1 : c.k == 1 ? 2 : pick_size(c.rng, false);
   VAdj A = gen_sym(c.rng, n, so);
-  if(c.k == 1) { A.a = {{}, {}}; }
+  if(c.k == 1) { A.a = {{}, {}}; so = SymOpt(); }
   bool nonsym = false;
   if(c.k > 8 && c.rng.coin(0.15))
   { // structurally non-symmetric square pattern: drop some directed entries
